@@ -392,6 +392,16 @@ func (x *Exec) fieldStep(cur Value, curT types.Type, i int, st *State, pos token
 		if pl, isPL := cur.(PtrLocalV); isPL {
 			return st.vars[pl.Obj].(*StructV).get(f.Name()), f.Type()
 		}
+		if lv, isLoc := cur.(LocV); isLoc {
+			// a pointer into another object (&a[i], &s.f): read the location it was taken from
+			if len(lv.Path) == 0 {
+				if sv, ok := x.expr(lv.Expr, st).(*StructV); ok {
+					return sv.get(f.Name()), f.Type()
+				}
+			}
+			x.abstractions["read through a pointer into an array element or field: value unconstrained"] = true
+			return x.freshTyped(f.Type(), "viaptr", st), f.Type()
+		}
 		ref := cur.(Term)
 		x.assertSafety(st, "nil", "nil pointer dereference (."+f.Name()+")", tNe(ref, tNil), pos)
 		if x.skipField(f) {
